@@ -17,6 +17,7 @@
 //! Utility for parsing `AttrChar` strings as a fnmatch pattern
 
 use super::AttrChar;
+use super::Origin;
 use yash_fnmatch::PatternChar;
 
 /// Converts unquoted backslashes to quoting characters.
@@ -38,7 +39,8 @@ pub fn to_pattern_chars(chars: &[AttrChar]) -> impl Iterator<Item = PatternChar>
     chars.iter().filter_map(|c| {
         if c.is_quoting {
             None
-        } else if c.is_quoted {
+        } else if c.is_quoted || c.origin == Origin::HardExpansion {
+            // The result of tilde expansion is treated as if quoted.
             Some(PatternChar::Literal(c.value))
         } else {
             Some(PatternChar::Normal(c.value))
